@@ -173,11 +173,12 @@ func runC11(c *Ctx) {
 
 	// (7) stateLoop
 	sl := c.SSAFunc("protocol", "Protocol.stateLoop")
+	setStateKey := c.setStateKey()
 	var setCalls []ssa.Instruction
 	var nilSends, errSends []ssa.Instruction
 	for _, b := range sl.Blocks {
 		for _, in := range b.Instrs {
-			if ci, ok := in.(ssa.CallInstruction); ok && calleeName(ci.Common()) == "protocol.(*Protocol).stateLoop$1" && inLoop(b) {
+			if ci, ok := in.(ssa.CallInstruction); ok && calleeName(ci.Common()) == setStateKey && inLoop(b) {
 				setCalls = append(setCalls, in)
 			}
 			if snd, ok := in.(*ssa.Send); ok && strings.HasSuffix(desc(snd.Chan), ".errorChan") {
@@ -219,7 +220,7 @@ func runC11(c *Ctx) {
 				}
 				nw++
 				fk := ssaFuncKey(fn)
-				c.Check(fk == "protocol.(*Protocol).stateLoop$1" || fk == "protocol.New", "current-state-writer", fk, st.Pos(), "currentState written by setState/New", "currentState is written outside stateLoop's setState")
+				c.Check(fk == setStateKey || fk == "protocol.New", "current-state-writer", fk, st.Pos(), "currentState written by setState/New", "currentState is written outside stateLoop's setState")
 			}
 		}
 	}
@@ -265,34 +266,26 @@ func (c *Ctx) checkReadySignals() {
 		{".sendReadyChan", map[[2]int64]bool{{agC, rC}: true, {agS, rS}: true}},
 	}
 	union := map[string]map[[2]int64]bool{".recvReadyChan": {}, ".sendReadyChan": {}}
+	setStateKey := c.setStateKey()
 	defer func() {
 		for _, w := range wants {
 			same := len(union[w.suffix]) == len(w.pairs)
-			c.Check(same, "ready-signal-complete", "protocol.(*Protocol).stateLoop$1:"+w.suffix, 0, "every (agency,role) pair that grants this side a turn signals "+w.suffix,
+			c.Check(same, "ready-signal-complete", "setState:"+w.suffix, 0, "every (agency,role) pair that grants this side a turn signals "+w.suffix,
 				fmt.Sprintf("%s is signalled for %v but must be for %v: a side holding agency is never woken", w.suffix, keysOf(union[w.suffix]), keysOf(w.pairs)))
 		}
 	}()
-	for _, fn := range c.pkgFuncs("protocol") {
+	for _, site := range liftedSendSites(c.pkgFuncs("protocol")) {
+		fn, in := site.Fn, site.At
 		fk := ssaFuncKey(fn)
-		for _, b := range fn.Blocks {
-			for _, in := range b.Instrs {
-				var chans []string
-				switch x := in.(type) {
-				case *ssa.Send:
-					chans = append(chans, desc(x.Chan))
-				case *ssa.Select:
-					for _, st := range x.States {
-						if st.Send != nil {
-							chans = append(chans, desc(st.Chan))
-						}
-					}
-				}
+		{
+			{
+				chans := []string{desc(site.Chan)}
 				for _, ch := range chans {
 					for _, w := range wants {
 						if !strings.HasSuffix(ch, w.suffix) {
 							continue
 						}
-						if fk != "protocol.(*Protocol).stateLoop$1" {
+						if fk != setStateKey {
 							c.Bad("ready-signal-owner", fk+":"+w.suffix, in.Pos(), "%s is signalled outside stateLoop's setState: agency can be granted without a state transition", w.suffix)
 							continue
 						}
@@ -349,4 +342,48 @@ func keysOf(m map[[2]int64]bool) string {
 		}
 	}
 	return strings.Join(out, "")
+}
+
+// setStateKey identifies stateLoop's state setter structurally: the one function other than New that stores
+// Protocol.currentState and is owned by stateLoop (a closure of it, or a helper called only from it).
+func (c *Ctx) setStateKey() string {
+	sl := c.SSAFunc("protocol", "Protocol.stateLoop")
+	owned := map[*ssa.Function]bool{}
+	for _, f := range withAnon(sl) {
+		owned[f] = true
+	}
+	var found []string
+	for _, fn := range c.pkgFuncs("protocol") {
+		if ssaFuncKey(fn) == "protocol.New" {
+			continue
+		}
+		writes := false
+		for _, in := range fnInstrs(fn) {
+			if st, ok := in.(*ssa.Store); ok {
+				if fa, ok := st.Addr.(*ssa.FieldAddr); ok && fieldName(fa.X.Type(), fa.Field) == "currentState" && isNamed(fa.X.Type(), "protocol", "Protocol") {
+					writes = true
+				}
+			}
+		}
+		if !writes {
+			continue
+		}
+		ok := owned[fn] && fn != sl
+		if !ok && fn.Parent() == nil {
+			cs := callersInPkg(fn)
+			ok = len(cs) > 0
+			for _, ci := range cs {
+				if !owned[ci.Parent()] {
+					ok = false
+				}
+			}
+		}
+		if ok {
+			found = append(found, ssaFuncKey(fn))
+		}
+	}
+	if len(found) != 1 {
+		return "protocol.(*Protocol).stateLoop$1"
+	}
+	return found[0]
 }
